@@ -169,6 +169,17 @@ func factsSession() {
 	} else {
 		unrec(g, "closeSendsNoticeThenClosesAll", "Session.Close not found")
 	}
+	// the receive buffers' Close wakes EVERY waiter: closed = true, then Broadcast (not Signal) on the condition variable
+	for _, pp := range []struct{ typ, recv, fact string }{{"streamBufferedPipe", "p", "streamPipeCloseWakesAll"}, {"datagramBufferedPipe", "d", "dgramPipeCloseWakesAll"}} {
+		if pc := fnOf(mx, pp.typ+".Close"); pc != nil {
+			pe := events(pc)
+			iS := idx(pe, 0, "assign", `^`+pp.recv+`\.closed = true$`)
+			iB := idx(pe, iS, "call", `^`+pp.recv+`\.rwCond\.Broadcast\(\)$`)
+			boolFact(g, pp.fact, iS >= 0 && iB > iS && pe[iB].depth == 0, pp.typ+".Close: closed = true; rwCond.Broadcast() unconditionally (every parked Read returns, not just one)")
+		} else {
+			unrec(g, pp.fact, pp.typ+".Close not found")
+		}
+	}
 	if fn := fnOf(mx, "switchboard.closeAll"); fn != nil {
 		evs := events(fn)
 		iCAS := idx(evs, 0, "if", `^!atomic\.CompareAndSwapUint32\(&sb\.broken, 0, 1\)$`)
